@@ -357,6 +357,7 @@ Plan gen_stream(const std::string &prop, uint64_t seed, bool th) {
   bool corrupt = r.chance(prop == "C11" ? 35 : 60);
   int corrupt_at = corrupt ? (int)r.below((uint32_t)nvalid + 1) : -1;
   std::string stream;
+  std::vector<size_t> valid_sizes;
   for (int i = 0; i <= nvalid; i++) {
     if (i == corrupt_at) {
       wire::Msg m = r.chance(20) ? targeted(r) : wiregen::gen_msg(r, mo);
@@ -368,7 +369,15 @@ Plan gen_stream(const std::string &prop, uint64_t seed, bool th) {
     if (i == nvalid) break;
     wire::Msg m = r.chance(12) ? targeted(r) : wiregen::gen_msg(r, mo);
     if (th && r.chance(3)) { std::vector<wire::Value> big; big.push_back(wire::Value::array("y", std::vector<wire::Value>(1000 + r.below(60000), wire::Value::byte(1)))); m.set_body(big); }
-    stream += wire::marshal(m);
+    std::string mb = wire::marshal(m);
+    valid_sizes.push_back(mb.size());
+    stream += mb;
+  }
+  // the size limit right at one of the messages: that message is 0..8 bytes longer than allowed, or just fits
+  // (whatever the alignment of its header's end - the padding between header and body counts)
+  if (!valid_sizes.empty() && r.chance(25)) {
+    long sz = (long)valid_sizes[r.below((uint32_t)valid_sizes.size())] - (long)r.below(12) + 3;
+    if (sz >= 24) p.cfg["maxmsg"] = std::to_string(sz);
   }
   Step st;
   st.t = "stream";
